@@ -49,8 +49,28 @@ def make_opts(api: str, cls: str, preset, frame_size: int, mode: str):
 
 
 # --------------------------------------------------------------- write side
+class LoggingIterator:
+    """An iterator that is not a generator object (a class with __next__)."""
+
+    def __init__(self, stmts, log) -> None:
+        self.stmts, self.log, self.i = stmts, log, 0
+
+    def __iter__(self):
+        return self
+
+    def __next__(self):
+        if self.i >= len(self.stmts):
+            raise StopIteration
+        self.i += 1
+        self.log.append(("pull", self.i))
+        return self.stmts[self.i - 1]
+
+
+SRC_KINDS = ("generator", "iterator", "map")
+
+
 def observe_write(api: str, cls: str, entry: str, seq, frame_size: int, preset,
-                  mode: str = "plain"):
+                  mode: str = "plain", src_kind: str = "generator"):
     """Run the pipeline; return (event log, frames as jwire dicts)."""
     log: list = []
     conv = T.st_to_generic if api == "generic" else T.st_to_rdflib
@@ -60,6 +80,14 @@ def observe_write(api: str, cls: str, entry: str, seq, frame_size: int, preset,
         for i, s in enumerate(stmts):
             log.append(("pull", i + 1))
             yield s
+
+    if src_kind != "generator":
+        gen_source = source
+
+        def source():  # noqa: F811
+            if src_kind == "iterator":
+                return LoggingIterator(stmts, log)
+            return map(lambda x: x, gen_source())  # a lazy iterator, but not a generator object
 
     opts = make_opts(api, cls, preset, frame_size, mode)
     if api == "generic":
@@ -203,8 +231,26 @@ def judge_write(log, frames, n: int, frame_size: int) -> list[tuple[str, str]]:
     return fails
 
 
+def star_statement(k: int) -> tuple:
+    """Statement number k of a stream of quoted triples in which every IRI is new: 7 prefix
+    entries + 7 name entries + the statement row = 15 rows for one statement."""
+    def iri(j: int):
+        return T.I(f"http://h{k}x{j}/n{k}x{j}")
+
+    return (T.T(iri(0), iri(1), iri(2)), iri(3), T.T(iri(4), iri(5), iri(6)))
+
+
+STAR_PRESET = (16, 8, 0)
+STAR_FRAME_SIZES = (10, 12, 15, 16, 19, 20, 31)
+
+
 def run_write_case(case: dict) -> list[tuple[str, str]]:
     cls = case["cls"]
+    if case.get("star"):
+        seq = [star_statement(k) for k in range(case["star"])]
+        log, frames = observe_write("generic", "triple", case["entry"], seq, case["frame_size"],
+                                    STAR_PRESET, "plain", case.get("src", "generator"))
+        return judge_write(log, frames, len(seq), case["frame_size"])
     alpha = AL.alphabet(SCOPE, 3 if cls == "triple" else 4)
     seq = [alpha[i] for i in case["seq"]]
     if case["entry"] == "flat_to_file_raw":
@@ -215,7 +261,8 @@ def run_write_case(case: dict) -> list[tuple[str, str]]:
         g = seq[0][3]
         seq = [(*s[:3], g) for s in seq]
     log, frames = observe_write(case["api"], cls, case["entry"], seq, case["frame_size"],
-                                tuple(case["preset"]), case.get("opts", "plain"))
+                                tuple(case["preset"]), case.get("opts", "plain"),
+                                case.get("src", "generator"))
     return judge_write(log, frames, len(seq), case["frame_size"])
 
 
@@ -230,11 +277,15 @@ def write_shard(job) -> dict:
         sym = AL.seq_at(idx, 6, L)
         if api == "rdflib" and not all(T.is_rdf11(alpha[i]) for i in sym):
             continue
-        for fs, mode in [(f, m) for m in OPT_MODES for f in (1, 2, 3, 4, 5, 6, 7, 8)]:
+        combos = [(f, m, "generator") for m in OPT_MODES for f in (1, 2, 3, 4, 5, 6, 7, 8)]
+        combos += [(f, "plain", k) for k in SRC_KINDS[1:] for f in (1, 2, 3, 5)]
+        for fs, mode, src_kind in combos:
             if mode != "plain" and entry == "flat_to_file_raw":
                 continue
+            if src_kind != "generator" and entry in ("flat_to_file_raw", "graph"):
+                continue
             case = {"side": "write", "api": api, "cls": cls, "entry": entry, "seq": list(sym),
-                    "frame_size": fs, "preset": list(preset), "opts": mode}
+                    "frame_size": fs, "preset": list(preset), "opts": mode, "src": src_kind}
             acc.evals += 1
             if len(sym) >= 2:
                 acc.nontrivial += 1
@@ -250,7 +301,7 @@ def write_shard(job) -> dict:
                     log = [e for e in log if e[0] == "pull"] + [("frame", 0, 0)] * len(
                         jwire.frame_offsets(data))
                 else:
-                    log, frames = observe_write(api, cls_, entry, seq, fs, preset, mode)
+                    log, frames = observe_write(api, cls_, entry, seq, fs, preset, mode, src_kind)
                     fails = judge_write(log, frames, len(seq), fs)
             except Exception as e:  # noqa: BLE001
                 fails = [("raised", f"{type(e).__name__}: {e}")]
@@ -318,7 +369,30 @@ def read_shard(job) -> dict:
     return acc.out()
 
 
+def star_shard(job) -> dict:
+    acc = pool.Acc()
+    for entry in ("flat_to_frames", "stream_frames"):
+        for n in (2, 3, 4, 5):
+            for fs in STAR_FRAME_SIZES:
+                for src_kind in SRC_KINDS:
+                    case = {"side": "write", "api": "generic", "cls": "triple", "entry": entry,
+                            "star": n, "frame_size": fs, "src": src_kind}
+                    acc.evals += 1
+                    acc.nontrivial += 1
+                    try:
+                        fails = run_write_case(case)
+                    except Exception as e:  # noqa: BLE001
+                        fails = [("raised", f"{type(e).__name__}: {e}")]
+                    for kind, msg in fails:
+                        acc.violation({"side": "write", "fail": kind, "entry": entry,
+                                       "api": "generic", "star": True}, f"{msg} case={case}", case)
+    acc.extra = {"states": [], "steps": 0}
+    return acc.out()
+
+
 def _dispatch(job) -> dict:
+    if job[0] == "star":
+        return star_shard(job)
     return write_shard(job[1]) if job[0] == "w" else read_shard(job[1])
 
 
@@ -332,6 +406,7 @@ def run(ctx) -> None:
             for entry in entries:
                 for lo, hi in pool.split_range(n, 2 if ctx.quick else 8):
                     jobs.append(("w", (api, cls, entry, L, lo, hi)))
+    jobs.append(("star",))
     rjobs = [("r", (size, i)) for i in range(len(corpus.base_streams(size)))]
     merged = pool.merge(pool.pmap(_dispatch, jobs + rjobs))
     ctx.add(merged)
@@ -351,7 +426,8 @@ def run(ctx) -> None:
             "output that logs every write} x {Triple,Quad}Stream and GraphStream.graph() x the "
             "frame size given {through the options, through an explicit flow object, through an "
             "options object derived (dataclasses.replace) or mutated after it configured a bulk "
-            "stream} "
+            "stream} x the input given as {generator, iterator object, map object}; statements of "
+            "quoted triples that take 15 rows each with frame sizes 10..31; "
             "x {generic, rdflib}; states = distinct (frame_size, pulls, rows handed out) "
             "observations, transitions = generator steps (pulls and yields) observed; read: every "
             "base stream x every frame boundary j x {raw, buffered (socket.makefile shape), "
